@@ -1,6 +1,13 @@
 package verifh
 
-import "github.com/tink-crypto/tink-go/v2/internal/verifrt"
+import (
+	"bytes"
+	"io"
+
+	"github.com/tink-crypto/tink-go/v2/internal/internalregistry"
+	"github.com/tink-crypto/tink-go/v2/internal/verifrt"
+	"github.com/tink-crypto/tink-go/v2/monitoring"
+)
 
 // The sufficient condition for C18: once constructed, a primitive is only read. Every
 // object reachable from it is frozen; two calls of every method then run under the
@@ -35,4 +42,107 @@ func CheckMACShared(m MAC) {
 	verifrt.AssertEq(t1b, t1, "a call in between does not change the result")
 	verifrt.Assert(m.VerifyMAC(t1, d1) == nil && m.VerifyMAC(t2, d2) == nil, "tags verify")
 	verifrt.Reach("shared-ok")
+}
+
+// ---------------------------------------------------------------------------------------
+// Further primitive classes (C18, same sufficient condition).
+
+func CheckPRFShared(p PRF, outLen int) {
+	n := verifrt.Freeze(p, "state shared between concurrent calls (PRF primitive)")
+	verifrt.Assert(n > 0, "the primitive has state to freeze")
+	x1 := verifrt.Bytes("x1", verifrt.Choice("n1", 3))
+	x2 := verifrt.Bytes("x2", verifrt.Choice("n2", 3))
+	o1, e1 := p.ComputePRF(x1, uint32(outLen))
+	o2, e2 := p.ComputePRF(x2, uint32(outLen))
+	o1b, e3 := p.ComputePRF(x1, uint32(outLen))
+	verifrt.Assert(e1 == nil && e2 == nil && e3 == nil, "ComputePRF succeeds")
+	verifrt.Assert(len(o1) == outLen && len(o2) == outLen, "outputs have the requested length")
+	verifrt.AssertEq(o1b, o1, "a call in between does not change the result")
+	verifrt.Assert(!verifrt.SameArray(o1, o2) && !verifrt.SameArray(o1, o1b), "calls do not share output memory")
+	verifrt.Reach("shared-ok")
+}
+
+func CheckDAEADShared(d DAEAD, maxPT int) {
+	n := verifrt.Freeze(d, "state shared between concurrent calls (DAEAD primitive)")
+	verifrt.Assert(n > 0, "the primitive has state to freeze")
+	p1 := verifrt.Bytes("p1", verifrt.Choice("n1", maxPT+1))
+	p2 := verifrt.Bytes("p2", verifrt.Choice("n2", 3))
+	a1 := verifrt.Bytes("a1", 1)
+	a2 := verifrt.Bytes("a2", verifrt.Choice("m2", 2))
+	c1, e1 := d.EncryptDeterministically(p1, a1)
+	c2, e2 := d.EncryptDeterministically(p2, a2)
+	c1b, e3 := d.EncryptDeterministically(p1, a1)
+	verifrt.Assert(e1 == nil && e2 == nil && e3 == nil, "encryption succeeds")
+	verifrt.AssertEq(c1b, c1, "a call in between does not change the result")
+	g1, e4 := d.DecryptDeterministically(c1, a1)
+	g2, e5 := d.DecryptDeterministically(c2, a2)
+	verifrt.Assert(e4 == nil && e5 == nil, "decryption succeeds")
+	verifrt.AssertEq(g1, p1, "first round trip")
+	verifrt.AssertEq(g2, p2, "second round trip")
+	verifrt.Reach("shared-ok")
+}
+
+// CheckSignShared freezes both the signer and the verifier (they may share key objects).
+func CheckSignShared(s Signer, v Verifier) {
+	n := verifrt.Freeze(s, "state shared between concurrent calls (signer)")
+	m := verifrt.Freeze(v, "state shared between concurrent calls (verifier)")
+	verifrt.Assert(n > 0 && m > 0, "the primitives have state to freeze")
+	d1 := verifrt.Bytes("d1", verifrt.Choice("n1", 3))
+	d2 := verifrt.Bytes("d2", verifrt.Choice("n2", 3))
+	s1, e1 := s.Sign(d1)
+	s2, e2 := s.Sign(d2)
+	verifrt.Assert(e1 == nil && e2 == nil, "Sign succeeds")
+	verifrt.Assert(!verifrt.SameArray(s1, s2), "calls do not share output memory")
+	verifrt.Assert(v.Verify(s1, d1) == nil, "first signature verifies after the second call")
+	verifrt.Assert(v.Verify(s2, d2) == nil, "second signature verifies")
+	verifrt.Reach("shared-ok")
+}
+
+// CheckStreamShared: only the primitive is frozen; the per-session writers and readers are
+// created after the freeze and are call-local (mutable) state. Two sessions with different
+// associated data and plaintexts are open at the same time, their calls interleaved.
+func CheckStreamShared(a StreamingAEAD, lens []int) {
+	n := verifrt.Freeze(a, "state shared between concurrent sessions (streaming AEAD primitive)")
+	verifrt.Assert(n > 0, "the primitive has state to freeze")
+	ad1 := verifrt.Bytes("ad1", 1)
+	ad2 := verifrt.Bytes("ad2", verifrt.Choice("m2", 2))
+	p1 := verifrt.Bytes("p1", lens[verifrt.Choice("l1", len(lens))])
+	p2 := verifrt.Bytes("p2", lens[verifrt.Choice("l2", len(lens))])
+	var sink1, sink2 bytes.Buffer
+	w1, e1 := a.NewEncryptingWriter(&sink1, ad1)
+	w2, e2 := a.NewEncryptingWriter(&sink2, ad2)
+	verifrt.Assert(e1 == nil && e2 == nil, "both sessions open")
+	h := len(p1) / 2
+	_, e3 := w1.Write(p1[:h])
+	_, e4 := w2.Write(p2)
+	_, e5 := w1.Write(p1[h:])
+	verifrt.Assert(e3 == nil && e4 == nil && e5 == nil, "interleaved writes succeed")
+	verifrt.Assert(w2.Close() == nil && w1.Close() == nil, "both sessions close")
+	r1, e6 := a.NewDecryptingReader(bytes.NewReader(sink1.Bytes()), ad1)
+	r2, e7 := a.NewDecryptingReader(bytes.NewReader(sink2.Bytes()), ad2)
+	verifrt.Assert(e6 == nil && e7 == nil, "both reading sessions open")
+	g2, e8 := io.ReadAll(r2)
+	g1, e9 := io.ReadAll(r1)
+	verifrt.Assert(e8 == nil && e9 == nil, "both streams decrypt")
+	verifrt.AssertEq(g1, p1, "first session's plaintext")
+	verifrt.AssertEq(g2, p2, "second session's plaintext")
+	verifrt.Reach("shared-ok")
+}
+
+// A monitoring client whose loggers keep no state: the factories create real loggers (the
+// keysets of SymbolicKeyset carry annotations) and call them, but logging writes nothing.
+// (A stateful client is the user's object; its thread safety is not Tink's.)
+type roClient struct{}
+type roLogger struct{}
+
+func (roLogger) Log(uint32, int)     {}
+func (roLogger) LogKeyExport(uint32) {}
+func (roLogger) LogFailure()         {}
+func (roClient) NewLogger(*monitoring.Context) (monitoring.Logger, error) {
+	return roLogger{}, nil
+}
+
+func InstallROMonitoring() {
+	internalregistry.ClearMonitoringClient()
+	internalregistry.RegisterMonitoringClient(roClient{})
 }
